@@ -190,8 +190,23 @@ def rule_r2_r3(rep, repo):
             txtp = e5.show(pit, 600)
             last_ok_excl = ("grid_list[:-1]" in txtp.replace(" ", "").replace("::", ":") or "slice" in repr(pit)) and \
                 "-1" in repr(pit)
-            body_txt = " ".join(norm(s) for s in lp.body)
-            last_ok_int = "self.grid_list[-1].integrate(" in body_txt and "self.grid_list[-1].points" in body_txt
+            # the grid that integrates the innermost variable and the points handed to the integrand, as
+            # value graphs (local aliases such as `last_grid = self.grid_list[-1]` are looked through)
+            LAST = ("sub", ("attr", ("sym", "self"), "grid_list"), ("const", "-1"))
+            lv = e5.VG(repo, "MultiDomainGrid", f.node, inline=False)
+            lv.env = dict(vg.env)
+            recvs, ptsargs = [], []
+            for st in lp.body:
+                for n in ast.walk(st):
+                    if isinstance(n, ast.Call) and isinstance(n.func, ast.Attribute) and n.func.attr == "integrate":
+                        recvs.append(lv.ev(n.func.value))
+                    if isinstance(n, ast.Attribute) and n.attr == "points":
+                        ptsargs.append(lv.ev(n.value))
+                    if isinstance(n, ast.Name) and isinstance(n.ctx, ast.Load) and n.id in lv.env and \
+                            lv.env[n.id] == ("attr", LAST, "points"):
+                        ptsargs.append(LAST)
+                lv.stmt(st) if isinstance(st, ast.Assign) else None
+            last_ok_int = bool(recvs) and all(r == LAST for r in recvs) and LAST in ptsargs
             rep_ok = "num_domains" in txtp and "-1" in txtp
             if last_ok_int and rep_ok:
                 rep.ok("R2.last-domain", "MultiDomainGrid.integrate", repo.rel("ngrid", lp),
